@@ -91,14 +91,14 @@ A0(si) == Shape("A", OneFile(Weave(Coords(si, 5, FpOf(si), 1), NoDeco(M(si))), s
                 "ok", (si % NOps) + 1, RotOpt(si))
 A1(si, g, kx) == Shape("A", OneFile(Weave(Coords(si, 5, FpOf(si), 1), DecoAt(M(si), g, kx)), si + g),
                        "ok", ((si + g) % NOps) + 1, RotOpt(11 * si + g + kx))
-A2(si, g1, g2) == Shape("A", OneFile(Weave(Coords(si, 5, FpOf(si), 1),
-                                           DecoAt2(M(si), g1, ((g1 + si) % 4) + 1, g2, ((g2 + 2 * si) % 4) + 1)), g1 + g2),
-                        "ok", ((si + g1 + g2) % NOps) + 1, RotOpt(13 * si + 5 * g1 + g2))
+A2(si, g1, g2, v) == Shape("A", OneFile(Weave(Coords(si, 5, FpOf(si), 1),
+                                              DecoAt2(M(si), g1, ((g1 + si + v) % 4) + 1, g2, ((g2 + 2 * si + 3 * v) % 4) + 1)), g1 + g2 + v),
+                           "ok", ((si + g1 + g2 + v) % NOps) + 1, RotOpt(13 * si + 5 * g1 + g2 + 29 * v))
 FamAQ == {A0(si) : si \in 1..NS}
          \cup {A1(x[1], x[2], ((x[1] + x[2]) % 4) + 1) : x \in {y \in (1..NS) \X (0..8) : y[2] <= M(y[1])}}
 FamAT == {A0(si) : si \in 1..NS}
          \cup {A1(x[1], x[2], x[3]) : x \in {y \in (1..NS) \X (0..8) \X (1..4) : y[2] <= M(y[1])}}
-         \cup {A2(x[1], x[2], x[3]) : x \in {y \in (1..NS) \X (0..8) \X (0..8) : y[2] <= y[3] /\ y[3] <= M(y[1])}}
+         \cup {A2(x[1], x[2], x[3], x[4]) : x \in {y \in (1..NS) \X (0..8) \X (0..8) \X (0..1) : y[2] <= y[3] /\ y[3] <= M(y[1])}}
 
 \* ---- family B: the same lines spread over 2 or 3 files / stdin --------------
 BaseB(si, dec) == Weave(Coords(si, 5, 1, 1), IF dec THEN DecoAll(M(si)) ELSE NoDeco(M(si)))
@@ -127,7 +127,7 @@ FamCQ == {C1(x, ((x + (x \div 4)) % NOps) + 1) : x \in 0..(NCmp - 1)}
 FamCT == {C1(x, opx) : x \in 0..(NCmp - 1), opx \in 1..NOps}
          \cup {C2(x) : x \in 0..11}
          \cup {C3(si, x) : si \in {1, 3, 4, 5, 8}, x \in 0..11}
-         \cup {C4(si, x) : si \in {3, 5, 7}, x \in 0..(NCmp - 1)}
+         \cup {C4(si, x) : si \in 2..NS, x \in 0..(NCmp - 1)}
 
 \* ---- family D: mixtures of column counts and notations ----------------------
 D1(si, cp, fp, tp) == Shape("D", OneFile(Weave(Coords(si, cp, fp, tp), NoDeco(M(si))), si + cp),
